@@ -69,6 +69,27 @@ const BUNDLES: [&[&str]; 16] = [
     &["owned_try_into", "ref_try_into", "try_from_owned", "try_from_ref"],
 ];
 
+/// which of the six conversion kinds an instruction name covers, as a bit mask (+64 if fallible)
+fn kind_mask(instr: &str) -> u32 {
+    let base = instr.replace("try_", "");
+    let m = match base.as_str() {
+        "map" => 0b001111,
+        "from" => 0b001100,
+        "into" => 0b000011,
+        "map_owned" => 0b000101,
+        "map_ref" => 0b001010,
+        "from_owned" => 0b000100,
+        "from_ref" => 0b001000,
+        "owned_into" => 0b000001,
+        "ref_into" => 0b000010,
+        "into_existing" => 0b110000,
+        "owned_into_existing" => 0b010000,
+        "ref_into_existing" => 0b100000,
+        _ => 0,
+    };
+    m
+}
+
 fn is_fallible(instr: &str) -> bool {
     instr.contains("try_")
 }
@@ -126,17 +147,57 @@ fn pick_distinct<'a>(rng: &mut Rng, pool: &[&'a str], n: usize) -> Vec<&'a str> 
     v
 }
 
-fn expr(rng: &mut Rng) -> &'static str {
-    *rng.pick(&[
-        "~.clone()", "@.id + 1", "~ as i64", "{ ~.to_string() }", "Default::default()", "@.name.len() as i32", "~.into()", "{ let x = ~; [x, @.id](0) }", "~?", "(@.left, ~)",
-        // every token form an inline expression can carry
-        "{ b\"bytes\".len() as u8 + ~ }", "1.5e3_f64 * ~ as f64", "0xFFu8 & ~", "{ if @.flag { 'c' } else { '\\n' } }", "r#\"raw \" string\"#.into()", "format!(\"{}-{:?}\", @.id, ~)", "{ match ~ { Some(v) => v, None => 0 } }", "@.items.iter().map(|x| x + 1).collect::<Vec<_>>()",
-        "{ 'l: loop { break 'l ~; } }", "&mut *~", "<_ as Into<i64>>::into(~)", "{ #[allow(unused)] let y = ~; y }",
-    ])
+const EXPR_POOL: [&str; 22] = [
+    "~.clone()", "@.id + 1", "~ as i64", "{ ~.to_string() }", "Default::default()", "@.name.len() as i32", "~.into()", "{ let x = ~; [x, @.id](0) }", "~?", "(@.left, ~)",
+    // every token form an inline expression can carry
+    "{ b\"bytes\".len() as u8 + ~ }", "1.5e3_f64 * ~ as f64", "0xFFu8 & ~", "{ if @.flag { 'c' } else { '\\n' } }", "r#\"raw \" string\"#.into()", "format!(\"{}-{:?}\", @.id, ~)", "{ match ~ { Some(v) => v, None => 0 } }", "@.items.iter().map(|x| x + 1).collect::<Vec<_>>()",
+    "{ 'l: loop { break 'l ~; } }", "&mut *~", "<_ as Into<i64>>::into(~)", "{ #[allow(unused)] let y = ~; y }",
+];
+
+/// A random expression: `@` and `~` at any nesting depth of parentheses, brackets and braces,
+/// every literal kind, macros, closures, paths with turbofish, blocks.
+fn compose_expr(rng: &mut Rng, depth: usize) -> String {
+    if depth == 0 || rng.chance(1, 4) {
+        return rng.pick(&["~", "@", "@.id", "~.0", "@.name", "1", "\"s\"", "x", "Self::K", "b'c'", "2.5", "'q'", "r#type", "None", "~.len()", "@.inner.deep.value"]).to_string();
+    }
+    let a = compose_expr(rng, depth - 1);
+    let b = compose_expr(rng, depth - 1);
+    match rng.below(16) {
+        0 => format!("{} + {}", a, b),
+        1 => format!("{}.{}({})", a, rng.pick(&["map", "push", "min", "cmp", "get"]), b),
+        2 => format!("({}, {})", a, b),
+        3 => format!("[{}, {}]", a, b),
+        4 => format!("{{ let t = {}; {} }}", a, b),
+        5 => format!("{}({})", rng.pick(&["f", "Some", "Self::new", "convert::<u8>", "crate::util::fix"]), a),
+        6 => format!("{} as {}", a, rng.pick(&["i64", "u8", "f32", "usize"])),
+        7 => format!("&{}", a),
+        8 => format!("{}?", a),
+        9 => format!("{}!({}, {})", rng.pick(&["vec", "format", "matches", "my_macro"]), a, b),
+        10 => format!("|v| {}", a),
+        11 => format!("if {} {{ {} }} else {{ {} }}", a, b, compose_expr(rng, depth - 1)),
+        12 => format!("match {} {{ Some(v) => {}, _ => Default::default() }}", a, b),
+        13 => format!("{{ [({}, {{ {} }})] }}", a, b),
+        14 => format!("{}..={}", a, b),
+        _ => format!("*{}.as_ref()", a),
+    }
 }
 
-fn default_expr(rng: &mut Rng) -> &'static str {
-    *rng.pick(&["{ 1 }", "{ Default::default() }", "{ @.id.to_string() }", "{ None }", "{ vec![1, 2] }", "{ \"x\".into() }", "{ ~.id + 1 }", "{ (~0, [@.name.clone()]) }"])
+fn expr(rng: &mut Rng) -> String {
+    if rng.chance(1, 3) {
+        let d = rng.range(1, 3);
+        compose_expr(rng, d)
+    } else {
+        rng.pick(&EXPR_POOL).to_string()
+    }
+}
+
+fn default_expr(rng: &mut Rng) -> String {
+    if rng.chance(1, 4) {
+        let d = rng.range(1, 2);
+        format!("{{ {} }}", compose_expr(rng, d))
+    } else {
+        rng.pick(&["{ 1 }", "{ Default::default() }", "{ @.id.to_string() }", "{ None }", "{ vec![1, 2] }", "{ \"x\".into() }", "{ ~.id + 1 }", "{ (~0, [@.name.clone()]) }"]).to_string()
+    }
 }
 
 struct TraitOpts {
@@ -228,8 +289,18 @@ fn wrap(bodies: Vec<String>, rng: &mut Rng) -> Vec<String> {
     }
 }
 
-fn generics(rng: &mut Rng, item: &mut Item) {
+fn predicate(rng: &mut Rng) -> String {
+    let subj = *rng.pick(&["T", "U", "V", "i32", "Vec<T>", "&'a T", "Option<U>", "[T; 2]"]);
+    let bound = *rng.pick(&["Clone", "Copy + Default", "Into<i32>", "'static", "From<U>", "Iterator<Item = T>", "?Sized", "'a", "PartialEq<V> + Send", "Fn(&T) -> U"]);
     match rng.below(8) {
+        0 => format!("for<'x> &'x {}: {}", subj, bound),
+        1 => "'a: 'b".to_string(),
+        _ => format!("{}: {}", subj, bound),
+    }
+}
+
+fn generics(rng: &mut Rng, item: &mut Item) {
+    match rng.below(10) {
         0 => {
             item.generics = "<T>".into();
         },
@@ -244,21 +315,74 @@ fn generics(rng: &mut Rng, item: &mut Item) {
             item.generics = "<'a, T, const N: usize>".into();
             item.where_clause = "where T: 'a".into();
         },
-        4 if rng.chance(1, 2) => {
+        4 => {
             item.generics = "<'a: 'b, 'b, T: ?Sized + 'a, U = i32>".into();
             item.where_clause = "where for<'x> &'x T: PartialEq, U: Iterator<Item = &'b str>".into();
+        },
+        5 | 6 => {
+            // composed parameter list: 0..3 lifetimes (with outlives bounds), 0..3 type
+            // parameters (with bounds, trailing defaults), optional const parameter
+            let mut ps: Vec<String> = Vec::new();
+            let nl = rng.range(0, 3);
+            for (i, l) in ["'a", "'b", "'c"].iter().take(nl).enumerate() {
+                if i > 0 && rng.chance(1, 3) {
+                    ps.push(format!("{}: 'a", l));
+                } else {
+                    ps.push(l.to_string());
+                }
+            }
+            let nt = rng.range(if nl == 0 { 1 } else { 0 }, 3);
+            let defaults_from = if rng.chance(1, 4) { rng.range(0, nt) } else { nt };
+            let mut ty_params: Vec<String> = Vec::new();
+            for (i, t) in ["T", "U", "V"].iter().take(nt).enumerate() {
+                let mut p = t.to_string();
+                if rng.chance(1, 2) {
+                    p.push_str(&format!(": {}", rng.pick(&["Clone", "Default + Copy", "?Sized", "Into<i32>", "Iterator<Item = u8>", "Fn() -> i32"])));
+                }
+                if i >= defaults_from {
+                    p.push_str(*rng.pick(&[" = i32", " = String", " = ()"]));
+                }
+                ty_params.push(p);
+            }
+            let has_const = rng.chance(1, 4);
+            if has_const && defaults_from < nt {
+                // const parameters may not follow defaulted type parameters in every edition: put it first
+                ps.push("const N: usize".to_string());
+                ps.extend(ty_params);
+            } else {
+                ps.extend(ty_params);
+                if has_const {
+                    ps.push("const N: usize".to_string());
+                }
+            }
+            item.generics = format!("<{}>", ps.join(", "));
+            let nw = rng.range(0, 3);
+            if nw > 0 {
+                let preds: Vec<String> = (0..nw).map(|_| predicate(rng)).collect();
+                item.where_clause = format!("where {}", preds.join(", "));
+            }
         },
         _ => {},
     }
 }
 
 fn where_attrs(rng: &mut Rng, cps: &[&str], out: &mut Vec<String>) {
+    let preds = |rng: &mut Rng| -> String {
+        if rng.chance(1, 2) {
+            let n = rng.range(1, 4);
+            (0..n).map(|_| predicate(rng)).collect::<Vec<_>>().join(", ")
+        } else {
+            rng.pick(&["T: Clone", "T: Clone, U: Copy + Default", "T: Into<i32>, i32: From<U>, U: 'static", "T: Copy", "T: Default, U: Clone", "for<'x> &'x T: Into<U>, U: Sized"]).to_string()
+        }
+    };
     if rng.chance(1, 3) {
-        out.push(format!("where_clause({})", rng.pick(&["T: Clone", "T: Clone, U: Copy + Default", "T: Into<i32>, i32: From<U>, U: 'static"])));
+        let p = preds(rng);
+        out.push(format!("where_clause({})", p));
     }
     for cp in cps {
         if rng.chance(1, 4) {
-            out.push(format!("where_clause({}| {})", cp, rng.pick(&["T: Copy", "T: Default, U: Clone", "for<'x> &'x T: Into<U>, U: Sized"])));
+            let p = preds(rng);
+            out.push(format!("where_clause({}| {})", cp, p));
         }
     }
 }
@@ -353,7 +477,11 @@ pub fn gen_struct(rng: &mut Rng, class: Class) -> Item {
         cps.push(cps_all[0]);
     }
     for cp in &cps_all {
-        let bundle = *rng.pick(&BUNDLES);
+        let random_bundle: Vec<&str> = {
+            let n = rng.range(1, 5);
+            pick_distinct(rng, &TRAIT_INSTRS, n)
+        };
+        let bundle: &[&str] = if rng.chance(1, 4) { &random_bundle } else { *rng.pick(&BUNDLES) };
         let hint = match (item.shape, rng.below(6)) {
             (Shape::Named, 0) => " as ()",
             (Shape::Tuple, 0) => " as {}",
@@ -361,7 +489,16 @@ pub fn gen_struct(rng: &mut Rng, class: Class) -> Item {
             (Shape::Unit, 2) => " as {}",
             _ => "",
         };
+        let mut used_infallible = 0u32;
+        let mut used_fallible = 0u32;
         for instr in bundle {
+            // two instructions covering the same kind for one counterpart are a (documented)
+            // misuse: keep that to 1 in 8 here, the misuse catalogue does it on purpose
+            let used = if is_fallible(instr) { &mut used_fallible } else { &mut used_infallible };
+            if *used & kind_mask(instr) != 0 && !rng.chance(1, 8) {
+                continue;
+            }
+            *used |= kind_mask(instr);
             fallible_any |= is_fallible(instr);
             let is_open = open_repeats.iter().any(|x| x == instr);
             // mostly well-formed repeat sequences; 1 in 8 anything goes
@@ -412,7 +549,26 @@ pub fn gen_struct(rng: &mut Rng, class: Class) -> Item {
 
     // flattening
     let flatten = class == Class::W3Flatten || rng.chance(1, 6);
-    let groups: Vec<&str> = if flatten && item.shape == Shape::Named { { let n = rng.range(2, 4); pick_distinct(rng, &["base", "base.inner", "child", "base.inner.deep", "meta", "a.b.c.d.e", "a.b.c.d.e.f", "a.b"], n) } } else { vec![] };
+    let random_paths: Vec<String> = (0..4)
+        .map(|_| {
+            let d = rng.range(1, 6);
+            (0..d).map(|_| rng.pick(&["a", "b", "c", "base", "inner", "x", "0", "1"]).to_string()).collect::<Vec<_>>().join(".")
+        })
+        .collect();
+    let groups: Vec<&str> = if flatten && (item.shape == Shape::Named || rng.chance(1, 4)) {
+        let n = rng.range(2, 4);
+        if rng.chance(1, 3) {
+            let mut v: Vec<&str> = random_paths.iter().map(|s| s.as_str()).collect();
+            v.sort();
+            v.dedup();
+            v.truncate(n);
+            v
+        } else {
+            pick_distinct(rng, &["base", "base.inner", "child", "base.inner.deep", "meta", "a.b.c.d.e", "a.b.c.d.e.f", "a.b"], n)
+        }
+    } else {
+        vec![]
+    };
     if !groups.is_empty() {
         let mut need: Vec<String> = Vec::new();
         for g in &groups {
@@ -430,6 +586,9 @@ pub fn gen_struct(rng: &mut Rng, class: Class) -> Item {
         }
         let tyname = |p: &str| -> String {
             let last = p.rsplit('.').next().unwrap();
+            if last.chars().all(|c| c.is_ascii_digit()) {
+                return format!("Tup{}", last);
+            }
             let mut c = last.chars();
             let f = c.next().unwrap().to_ascii_uppercase();
             format!("{}{}", f, c.as_str())
@@ -456,9 +615,15 @@ pub fn gen_struct(rng: &mut Rng, class: Class) -> Item {
             let only = pick_distinct(rng, &["ga", "gb", "gc", "gd"], k);
             let tys: Vec<String> = only.iter().map(|g| format!("{}: G{}", g, g.to_uppercase())).collect();
             let gh: Vec<String> = only.iter().enumerate().map(|(i, g)| format!("{}@v{}: {{ {} }}", g, i, i)).collect();
-            let ded = if rng.chance(1, 3) { format!("{}| ", rng.pick(&cps)) } else { String::new() };
-            bodies.push(format!("child_parents({}{})", ded, tys.join(", ")));
-            bodies.push(format!("{}({}{})", rng.pick(&["ghosts", "ghosts_owned", "ghosts_ref"]), ded, gh.join(", ")));
+            // a second *default* ghosts / child_parents instruction would be a misuse: dedicate
+            // these to a counterpart when a default one is already there
+            let has_default = bodies.iter().any(|b| (b.starts_with("child_parents(") || b.starts_with("ghosts")) && !b.contains("| "));
+            let ded = if has_default || rng.chance(1, 3) { format!("{}| ", rng.pick(&cps)) } else { String::new() };
+            let dup = bodies.iter().any(|b| b.starts_with(&format!("child_parents({}", ded)) && !ded.is_empty());
+            if !dup {
+                bodies.push(format!("child_parents({}{})", ded, tys.join(", ")));
+                bodies.push(format!("{}({}{})", rng.pick(&["ghosts", "ghosts_owned", "ghosts_ref"]), ded, gh.join(", ")));
+            }
         }
     }
 
